@@ -366,6 +366,7 @@ func c17(r *ev.Result, tier string) {
 	c17ManyFiles(r, base)
 	c17KeptHistories(r, base)
 	c17TableChanges(r, base)
+	c17Counts(r, base)
 	if !c17Independent(r, base) {
 		r.Exhaustive = false
 		r.Set("stopped", "converters share state; the parallel enumeration was not run")
